@@ -44,9 +44,11 @@ Definition opt_nat_eqb (a : option nat) (b : option nat) : bool :=
 
 Section Wide.
 Variable cs : list ctxspec.
-Variable ic : ctxspec.
-Let p := mkP cs (Some ic) false.
-Let i0 := init_ctx ic.
+(** any parser over [cs] and ANY state [i0] of the initial context (the core
+    options seen so far may already have modified it: C18) *)
+Variable p : parser.
+Hypothesis Pcs : p_ctxs p = cs.
+Variable i0 : rctx.
 
 (** positional by position: the first required positional still missing *)
 Definition occ_pos_w (c : ctxspec) (given : list nat) (o : occ) : bool :=
@@ -167,7 +169,7 @@ Lemma one_steps_simple c given o done cur fl got :
     Inv_w c (one_given given o) (run_one (rc_args cur) o).
 Proof.
   intros G Os [St [Co Gt]] I. destruct (guard_w_parts c G) as [Gn _].
-  destruct (occ_steps_nm cs p i0 c given o done cur fl got eq_refl Gn Os St I) as [fl' [got' [S [I' St']]]].
+  destruct (occ_steps_nm cs p i0 c given o done cur fl got Pcs Gn Os St I) as [fl' [got' [S [I' St']]]].
   destruct (simple_cases c given o Os) as [a [Na [[b [Vo [Fo Tv]]]|[s [Vo [Fo [Tv Hint]]]]]]].
   - assert (E1 : run_one (rc_args cur) o = run_occ (rc_args cur) o) by (unfold run_one; now rewrite Vo).
     assert (E2 : one_given given o = given) by (unfold one_given; now rewrite Vo).
@@ -344,7 +346,8 @@ Proof.
     assert (Raw : r_raw r = false).
     { eapply (sn_raw _ _ _ St); eauto; rewrite Sr; auto.
       intros K. rewrite K in Nl. discriminate. }
-    apply (step_value_optional p i0 done cur (o_arg o) r Nr); auto; try (rewrite Sr; assumption).
+    apply (step_value_optional p i0 done cur (o_arg o) r Nr); auto; try (rewrite Sr; assumption);
+      try (rewrite Pcs; assumption).
     eapply has_missing_false; eauto. }
   destruct (o_form o) eqn:Fo; try discriminate; destruct (o_val o) as [b|n|s|] eqn:Vo; try discriminate.
   - (* "--flag value" *)
